@@ -22,16 +22,16 @@ import networkx as nx
 import vermouth
 import vermouth.forcefield
 import vermouth.map_parser
-from vermouth.molecule import Molecule, Block, Link
+from vermouth.molecule import Molecule, Block, Link, Choice, NotDefinedOrNot
 from vermouth.map_parser import Mapping
 from vermouth.processors.do_mapping import do_mapping
 from vermouth.processors.average_beads import DoAverageBead
 
 from common import VERIF, enc, line
 
-C01_NAMES = ['KEEP', 'MUST', 'STASH', 'RECORD', '_OrigMatcher', 'RecMatcher', 'wval', 'build', 'enc_inters',
+C01_NAMES = ['KEEP', 'MUST', 'STASH', 'RECORD', '_OrigMatcher', 'RecMatcher', 'wval', 'unspec', 'build', 'enc_inters',
              'enc_weights', 'enc_raw', 'enc_block_maps', 'enc_mod_maps', 'WEIGHTS', 'gen_ff', 'gen_molecule',
-             'pattern_components', 'gen_case', 'FEAT', 'build_mod_case']
+             'pattern_components', 'gen_case', 'FEAT', 'build_mod_case', 'XTYPES', 'XWEIGHTS', 'build_xmod_case']
 
 
 def load_c01_defs(chk):
@@ -49,7 +49,7 @@ def load_c01_defs(chk):
         if names and all(n in C01_NAMES for n in names):
             picked.append(node)
     ns = {'Fraction': F, 'nx': nx, 'vermouth': vermouth, 'Molecule': Molecule, 'Block': Block, 'Mapping': Mapping,
-          'Link': Link, 'do_mapping': do_mapping, 'chk': chk, 'copy': copy, 'itertools': itertools,
+          'Link': Link, 'Choice': Choice, 'NotDefinedOrNot': NotDefinedOrNot, 'do_mapping': do_mapping, 'chk': chk, 'copy': copy, 'itertools': itertools,
           'logging': logging, 'enc': enc, 'line': line, 'os': os, '__name__': 'c01_defs'}
     exec(compile(ast.Module(body=picked, type_ignores=[]), path, 'exec'), ns)
     missing = [n for n in C01_NAMES if n not in ns]
@@ -304,6 +304,10 @@ def run_case(D, rng, kind):
     if kind == 'blocks':
         spec, meta = D['gen_case'](rng, 8, D['FEAT'])
         mol, mappings, ffb = D['build'](spec)
+    elif kind == 'xmods':
+        # cross-link modifications (anchors in two block placements) and modifications that put an atom on ONE
+        # of several particles nothing maps to; predicates (Choice / NotDefinedOrNot) in block_from
+        mol, mappings, ffb, meta = D['build_xmod_case'](rng)
     else:
         mol, mappings, ffb, meta = D['build_mod_case'](rng)
     geom = decorate(rng, mol)
@@ -339,6 +343,17 @@ def run_case(D, rng, kind):
     case = {'kind': kind, 'geom': geom, 'weight': weight, 'ffvar': ffvar, 'ignore': ignore, 'blocks': blocks,
             'mods': mods, 'rawb': rawb, 'rawm': rawm, 'meta': meta, 'mol': mol}
     status2, raw_pos = None, None
+    # no two particles may share ONE weight-table object (what a later mapping assigns to one of them would show
+    # up in the other): identity check on the real result
+    case['aliased'] = []
+    if status == 'ok':
+        seen = {}
+        for k in out.nodes:
+            t = out.nodes[k].get('mapping_weights')
+            if t is not None:
+                if id(t) in seen:
+                    case['aliased'].append((seen[id(t)], k))
+                seen.setdefault(id(t), k)
     if status != 'ok':
         impl = 'maperror ' + status
     else:
